@@ -2,7 +2,7 @@
 SPECIFICATION Spec
 CONSTANTS
   D = {"A", "B"}
-  DirOptions = {{"A"}, {"A", "B"}}
+  DirOptions = {{}, {"A"}, {"A", "B"}}
   MaxFsOps = 4
   MaxConfs = 3
   MaxWids = 4
@@ -14,6 +14,7 @@ CONSTANTS
   FIX_READD = TRUE
   FIX_STALE = TRUE
   FIX_RENAMEDIR = TRUE
+  FIX_SCANWATCHED = TRUE
   RECORD = TRUE
 INVARIANTS TypeOK Bounded WatchesOK EmitRow
 
